@@ -1,185 +1,196 @@
 //! C01, pipeline part: a real `Host` over a fixture tree on disk (files inside the public
-//! directory, sentinel files beside and above it), driven through the public
-//! `kvarn::handle_cache` with a history of requests.
+//! directory, sentinel files beside and above it, the operator's error pages), driven with a history
+//! of requests through
+//!   `pathsanpipe.run`   the public `kvarn::handle_cache`, in process;
+//!   `pathsanpipe.wire`  HTTP/1.1 text over a loopback connection whose server end is handed to the public
+//!                       `kvarn::handle_connection` (request parsing, host selection, handle_cache, SendKind::send);
+//!   `pathsanpipe.h2`    the same over TLS + HTTP/2 (ALPN h2, the `h2` crate's client).
+//! While a request is handled, every `open(2)` of a file or directory below the run directory is
+//! recorded with inotify (IN_OPEN on every directory of the fixture).
 //!
-//! input  = (L (L default_ext cache fcache (B public_dir) files handlers) requests)
+//! input  = (L (L default_ext cache fcache (B public_dir) files handlers options) requests)
 //!   files    = (L (L (B path-relative-to-the-run-dir) (B content)) ...)   the host directory is `<run dir>/host`
-//!   handlers = (L (L (B path) (B body) (N spref)) ...)                     path-bound Prepare extensions (status 200)
+//!   handlers = (L (L (B path) (B body) (N spref)) ...)    path-bound Prepare extensions (status 200); spref 0 None, 1 QueryMatters, 2 Full
+//!   options  = (L (B errors_dir) (B extension_default) (B folder_default) (N disable_fs) (B host_header))
 //!   requests = (L (L (B method) (B target) (N origin_kind)) ...)
-//!            | (L (N 1) (B from) (B to))   the response-cache entry under the path `from` is copied to the key `to` -> (L (N found))
+//!            | (L (N 1) (B from) (B to))   the response-cache entry under UriKey::Path(from) is copied to UriKey::Path(to) -> (L (N found))
 //!     origin_kind: 0 no Origin header, 1 `Origin` of the same site, 2 `Origin` of another site,
 //!                  3 as 2 + `access-control-request-method`, 4 as 1 + `access-control-request-method`
-//! output = (L per-request ...), per request (L (N status) (B decoded body, error pages canonicalised) (L log ...))
-//!          or (L (N 96)) when the target is not origin-form / refused by http::Uri.
-//! `pathsanpipe.wire`: the same scenario, but the requests are written as HTTP/1.1 text to a real kvarn server
-//! (`RunConfig::execute`) on a loopback port; a HEAD answer has no body; a request the server answers by closing the
-//! connection is (L (N 96)); (L (N 96) (N 1)) = the server could not be run (not a verdict).
+//! output = (L per-request ...), per request (L (N status) (B decoded body, kvarn's generated error page canonicalised) (L log ...) (L opened ...))
+//!          or (L (N 96)) when the target is refused by http::Uri / cannot be written to the connection / is answered by
+//!          closing the connection or resetting the stream.
+//!          (L (N 96) (N 1)) = the scenario could not be run (connection trouble, stall, no inotify instance): not a verdict.
 //!   log: "pf" = the predicate of the predicate-bound Prepare extension was consulted, "h<i>" = path-bound handler i ran.
+//!   opened: the objects opened below the run directory, relative to it ("." = the run directory, directories end in '/').
 use crate::c00pipe as pipe;
 use crate::xval::X;
 use kvarn::prelude::*;
+use std::sync::{Arc, OnceLock};
 
 fn kvp(k: &str, v: X) -> X {
     X::L(vec![X::b(k), v])
 }
 
-fn headers_of(kind: u128) -> Vec<X> {
-    let h = |k: &str, v: &str| X::L(vec![X::b(k), X::b(v)]);
+/// `site`: the origin of the URI the server builds for an origin-form target ("http://localhost", over TLS + HTTP/2
+/// "https://localhost:8443")
+fn headers_of(kind: u128, site: &'static str) -> Vec<(&'static str, &'static str)> {
     match kind {
-        1 => vec![h("origin", "http://localhost")],
-        2 => vec![h("origin", "http://other.example")],
-        3 => vec![h("origin", "http://other.example"), h("access-control-request-method", "GET")],
-        4 => vec![h("origin", "http://localhost"), h("access-control-request-method", "GET")],
+        1 => vec![("origin", site)],
+        2 => vec![("origin", "http://other.example")],
+        3 => vec![("origin", "http://other.example"), ("access-control-request-method", "GET")],
+        4 => vec![("origin", site), ("access-control-request-method", "GET")],
         _ => vec![],
     }
 }
+const SITE: &str = "http://localhost";
+const SITE_H2: &str = "https://localhost:8443";
 
-/// `None` = malformed input; `Some(None)` = the wire variant could not be run (port trouble, stall): retried by the caller
-fn run(x: &X, wire: bool) -> Option<Option<X>> {
-    let l = x.as_l()?;
-    if l.len() != 2 {
-        return None;
-    }
-    let c = l[0].as_l()?;
-    if c.len() != 6 {
-        return None;
-    }
-    let (default_ext, cache, fcache) = (c[0].as_bool()?, c[1].as_bool()?, c[2].as_bool()?);
-    let public = c[3].as_b()?;
-    let mut handlers = Vec::new();
-    for h in c[5].as_l()? {
-        let h = h.as_l()?;
-        // (L path kind status body headers spref maxage cpref compress tuple)
-        handlers.push(X::L(vec![
-            X::b(h[0].as_b()?),
-            X::N(0),
-            X::N(200),
-            X::b(h[1].as_b()?),
-            X::L(vec![]),
-            X::N(h[2].as_n()?),
-            X::N(0),
-            X::N(0),
-            X::bool(false),
-            X::L(vec![]),
-        ]));
-    }
-    let mut cfg = vec![
-        kvp("default_ext", X::bool(default_ext)),
-        kvp("cache", X::bool(cache)),
-        kvp("fcache", X::bool(fcache)),
-        kvp("files", c[4].clone()),
-        kvp("handlers", X::L(handlers)),
-    ];
-    if public != b"public" {
-        // "public" is kvarn's default: leave the option unset then
-        cfg.push(kvp("public_dir", X::b(public)));
-    }
-    let customize = |_kv: &[(String, X)], host: &mut Host, shared: &std::sync::Arc<pipe::Shared>| {
-        // the fixture has files above the host directory as well
-        host.path = format!("{}/host", host.path).into();
-        let sh = std::sync::Arc::clone(shared);
-        host.extensions.add_prepare_fn(
-            Box::new(move |_req, _host| {
-                sh.log.lock().unwrap().push(b"pf".to_vec());
-                false
-            }),
-            prepare!(_req, _host, _path, _addr, {
-                FatResponse::no_cache(Response::new(Bytes::from_static(b"predicate-bound prepare ran")))
-            }),
-            extensions::Id::new(0, "C01 probe: logs that the predicate-bound Prepare extensions were consulted"),
-        );
-    };
-    let built = pipe::build_host(&X::L(cfg), Some(&customize))?;
-    enum Op {
-        Skip,
-        Req(X),
-        Wire(Vec<u8>, Vec<u8>, u128),
-        Alias(Vec<u8>, Vec<u8>),
-    }
-    let mut ops = Vec::new();
-    for r in l[1].as_l()? {
-        let r = r.as_l()?;
-        if r.len() == 3 && r[0].as_n() == Some(1) {
-            ops.push(Op::Alias(r[1].as_b()?.to_vec(), r[2].as_b()?.to_vec()));
-            continue;
-        }
-        let (method, target, kind) = (r[0].as_b()?, r[1].as_b()?, r[2].as_n()?);
-        if !target.starts_with(b"/") || (wire && !(wire_ok(target) && wire_ok(method))) {
-            ops.push(Op::Skip);
-        } else if wire {
-            ops.push(Op::Wire(method.to_vec(), target.to_vec(), kind));
-        } else {
-            ops.push(Op::Req(X::L(vec![X::N(0), X::N(1), X::b(method), X::b(target), X::L(headers_of(kind)), X::b(b"")])));
-        }
-    }
-    let res = std::panic::catch_unwind(std::panic::AssertUnwindSafe(|| {
-        pipe::block_on(async {
-            let mut out = Vec::new();
-            let mut conn = if wire { Some(Wire::start(&built).await?) } else { None };
-            for op in &ops {
-                match op {
-                    Op::Skip => out.push(X::L(vec![X::N(96)])),
-                    Op::Wire(method, target, kind) => {
-                        built.shared.log.lock().unwrap().clear();
-                        let r = conn.as_mut()?.exchange(method, target, *kind).await?;
-                        out.push(match r {
-                            None => X::L(vec![X::N(96)]),
-                            Some((status, body)) => {
-                                let log: Vec<X> = built.shared.log.lock().unwrap().iter().map(X::b).collect();
-                                X::L(vec![X::n(status), X::b(pipe::canon_body(&body)), X::L(log)])
-                            }
-                        });
+// -------------------------------------------------------------------------------------------
+// file-system access probe
+// -------------------------------------------------------------------------------------------
+/// inotify (IN_OPEN) on every directory below (and including) the run directory
+struct Watcher {
+    fd: i32,
+    dirs: std::collections::HashMap<i32, Vec<u8>>, // watch descriptor -> path relative to the run directory ("" = the run directory)
+}
+impl Watcher {
+    fn new(root: &std::path::Path) -> Option<Watcher> {
+        use std::os::unix::ffi::OsStrExt;
+        // every directory first (reading them opens them), then the watches
+        let mut all = vec![(root.to_path_buf(), Vec::<u8>::new())];
+        let mut i = 0;
+        while i < all.len() {
+            let (p, rel) = all[i].clone();
+            for e in std::fs::read_dir(&p).ok()? {
+                let e = e.ok()?;
+                if e.file_type().ok()?.is_dir() {
+                    let mut r = rel.clone();
+                    if !r.is_empty() {
+                        r.push(b'/');
                     }
-                    Op::Req(op) => {
-                        let r = pipe::run_ops(&built, std::slice::from_ref(op)).await?.into_iter().next()?;
-                        let rl = r.as_l()?;
-                        if rl.len() == 6 {
-                            // (L status headers body decode_ok identity log)
-                            if rl[3].as_bool() != Some(true) {
-                                out.push(X::L(vec![X::N(95)]));
-                            } else {
-                                out.push(X::L(vec![rl[0].clone(), rl[2].clone(), rl[5].clone()]));
-                            }
-                        } else {
-                            out.push(r.clone());
-                        }
-                    }
-                    Op::Alias(from, to) => {
-                        // "any cache content": the entry stored under the path `from` (if any) is also put under the key `to`,
-                        // with the public `MokaCache::cache` field
-                        let host = built.hosts.get_host(&built.host_name)?;
-                        let found = match &host.response_cache {
-                            Some(cache) => {
-                                let k = |b: &[u8]| comprash::UriKey::Path(String::from_utf8_lossy(b).as_ref().into());
-                                match cache.cache.get(&k(from)) {
-                                    Some(v) => {
-                                        cache.cache.insert(k(to), v);
-                                        true
-                                    }
-                                    None => false,
-                                }
-                            }
-                            None => false,
-                        };
-                        out.push(X::L(vec![X::bool(found)]));
-                    }
+                    r.extend_from_slice(e.file_name().as_bytes());
+                    all.push((e.path(), r));
                 }
             }
-            if let Some(c) = conn {
-                c.stop().await;
+            i += 1;
+        }
+        let fd = unsafe { libc::inotify_init1(libc::IN_NONBLOCK | libc::IN_CLOEXEC) };
+        if fd < 0 {
+            return None;
+        }
+        let mut w = Watcher { fd, dirs: Default::default() };
+        for (p, rel) in all {
+            let c = std::ffi::CString::new(p.as_os_str().as_bytes()).ok()?;
+            let wd = unsafe { libc::inotify_add_watch(fd, c.as_ptr(), libc::IN_OPEN) };
+            if wd < 0 {
+                return None;
             }
-            Some(out)
-        })
-    }));
-    if let Some(d) = &built.dir {
-        let _ = std::fs::remove_dir_all(d);
+            w.dirs.insert(wd, rel);
+        }
+        Some(w)
     }
-    Some(match res {
-        Ok(Some(out)) => Some(X::L(out)),
-        Ok(None) if wire => None,
-        Ok(None) => return None,
-        Err(_) => Some(X::panic()),
+    /// the objects opened since the last call, in order; `None`: the kernel's event queue overflowed (harness trouble)
+    fn drain(&mut self) -> Option<Vec<X>> {
+        let mut out = Vec::new();
+        let mut buf = [0u8; 16384];
+        loop {
+            let n = unsafe { libc::read(self.fd, buf.as_mut_ptr().cast(), buf.len()) };
+            if n <= 0 {
+                break;
+            }
+            let n = n as usize;
+            let mut p = 0;
+            while p + 16 <= n {
+                let wd = i32::from_ne_bytes(buf[p..p + 4].try_into().unwrap());
+                let mask = u32::from_ne_bytes(buf[p + 4..p + 8].try_into().unwrap());
+                let len = u32::from_ne_bytes(buf[p + 12..p + 16].try_into().unwrap()) as usize;
+                let name = &buf[p + 16..p + 16 + len];
+                let name = &name[..name.iter().position(|c| *c == 0).unwrap_or(name.len())];
+                p += 16 + len;
+                if mask & libc::IN_Q_OVERFLOW != 0 {
+                    return None;
+                }
+                if mask & libc::IN_OPEN == 0 {
+                    continue;
+                }
+                let Some(dir) = self.dirs.get(&wd) else { continue };
+                if name.is_empty() {
+                    // the watched directory itself: its parent's watch reports it by name, except for the run directory
+                    if dir.is_empty() {
+                        out.push(X::b("."));
+                    }
+                    continue;
+                }
+                let mut full = dir.clone();
+                if !full.is_empty() {
+                    full.push(b'/');
+                }
+                full.extend_from_slice(name);
+                if mask & libc::IN_ISDIR != 0 {
+                    full.push(b'/');
+                }
+                out.push(X::B(full));
+            }
+        }
+        Some(out)
+    }
+}
+impl Drop for Watcher {
+    fn drop(&mut self) {
+        unsafe { libc::close(self.fd) };
+    }
+}
+
+// -------------------------------------------------------------------------------------------
+// canonical form of kvarn's generated error page, by class: the body IS what
+// `kvarn_utils::hardcoded_error_body` generates for the status (and the `reason` header) of the answer
+// -------------------------------------------------------------------------------------------
+fn canon_body(status: u16, reason: Option<&[u8]>, body: &[u8]) -> Vec<u8> {
+    if let Ok(code) = StatusCode::from_u16(status) {
+        if body == &kvarn_utils::hardcoded_error_body(code, None)[..]
+            || reason.map_or(false, |r| body == &kvarn_utils::hardcoded_error_body(code, Some(r))[..])
+        {
+            return b"ERRPAGE".to_vec();
+        }
+    }
+    body.to_vec()
+}
+
+// -------------------------------------------------------------------------------------------
+// TLS material for the HTTP/2 variant (as harness/src/c20.rs)
+// -------------------------------------------------------------------------------------------
+struct Tls {
+    key: Arc<rustls::sign::CertifiedKey>,
+    client_h2: Arc<rustls::ClientConfig>,
+}
+fn tls() -> &'static Tls {
+    static TLS: OnceLock<Tls> = OnceLock::new();
+    TLS.get_or_init(|| {
+        use rustls::pki_types::PrivateKeyDer;
+        let provider = Arc::new(rustls::crypto::ring::default_provider());
+        let ss = rcgen::generate_simple_self_signed(vec!["localhost".to_string()]).expect("self-signed certificate");
+        let cert = ss.cert.der().clone();
+        let pk = PrivateKeyDer::Pkcs8(ss.key_pair.serialized_der().to_vec().into());
+        let pk = rustls::crypto::ring::sign::any_supported_type(&pk).expect("key type");
+        let key = Arc::new(rustls::sign::CertifiedKey::new(vec![cert.clone()], pk));
+        let mut roots = rustls::RootCertStore::empty();
+        roots.add(cert).expect("root");
+        let mut c = rustls::ClientConfig::builder_with_provider(provider)
+            .with_safe_default_protocol_versions()
+            .expect("versions")
+            .with_root_certificates(roots)
+            .with_no_client_auth();
+        c.alpn_protocols = vec![b"h2".to_vec()];
+        Tls { key, client_h2: Arc::new(c) }
     })
+}
+
+#[derive(Clone, Copy, PartialEq)]
+enum Mode {
+    InProc,
+    H1,
+    H2,
+    H2Raw,
 }
 
 /// what can be written into an HTTP/1.1 request line without changing its framing
@@ -187,85 +198,73 @@ fn wire_ok(s: &[u8]) -> bool {
     !s.is_empty() && s.iter().all(|c| *c > 0x20 && *c != 0x7f)
 }
 
-/// A real kvarn server (`RunConfig::execute`, HTTP/1.1 without TLS) on a loopback port serving the fixture host, and one
-/// client connection (re-opened when the server closes it: kvarn answers a request it cannot parse by closing).
-struct Wire {
-    port: u16,
-    stream: Option<tokio::net::TcpStream>,
-    shutdown: std::sync::Arc<kvarn::shutdown::Manager>,
-}
 const IO_TIMEOUT: Duration = Duration::from_secs(8);
+const H2_PORT: u16 = 8443;
 
-fn free_port() -> Option<u16> {
-    // the kernel picks a port nobody listens on; it is released again before kvarn binds it
-    let l = std::net::TcpListener::bind((std::net::Ipv4Addr::LOCALHOST, 0)).ok()?;
-    l.local_addr().ok().map(|a| a.port())
+/// The front door: a loopback listener owned by the harness (bound to a port the kernel chose and kept
+/// for the whole scenario, so nobody else can get it); the server end of every accepted connection is handed
+/// to `kvarn::handle_connection`.
+struct Front {
+    listener: tokio::net::TcpListener,
+    desc: Arc<PortDescriptor>,
+}
+impl Front {
+    async fn new(built: &pipe::Built, secure: bool) -> Option<Front> {
+        let listener = tokio::net::TcpListener::bind((std::net::Ipv4Addr::LOCALHOST, 0)).await.ok()?;
+        let desc = Arc::new(if secure {
+            PortDescriptor::new(H2_PORT, Arc::clone(&built.hosts))
+        } else {
+            PortDescriptor::unsecure(80, Arc::clone(&built.hosts))
+        });
+        Some(Front { listener, desc })
+    }
+    async fn connect(&self) -> Option<tokio::net::TcpStream> {
+        let addr = self.listener.local_addr().ok()?;
+        let client = tokio::time::timeout(IO_TIMEOUT, tokio::net::TcpStream::connect(addr)).await.ok()?.ok()?;
+        let (server_end, peer) = tokio::time::timeout(IO_TIMEOUT, self.listener.accept()).await.ok()?.ok()?;
+        if peer != client.local_addr().ok()? {
+            // somebody else's connection
+            return None;
+        }
+        let desc = Arc::clone(&self.desc);
+        tokio::spawn(async move {
+            let _ = kvarn::handle_connection(kvarn::Incoming::Tcp(server_end), peer, desc, || true).await;
+        });
+        let _ = client.set_nodelay(true);
+        Some(client)
+    }
 }
 
-impl Wire {
-    async fn start(built: &pipe::Built) -> Option<Wire> {
-        let port = free_port()?;
-        let shutdown = RunConfig::new()
-            .bind(PortDescriptor::unsecure(port, std::sync::Arc::clone(&built.hosts)).ipv4_only())
-            .disable_ctl()
-            .execute()
-            .await;
-        let mut w = Wire { port, stream: None, shutdown };
-        // the listener binds inside its task: a refusal in the first seconds means "not yet"
-        let t0 = std::time::Instant::now();
-        loop {
-            if w.connect().await {
-                return Some(w);
-            }
-            if t0.elapsed() > Duration::from_secs(5) {
-                w.stop().await;
-                return None;
-            }
-            tokio::time::sleep(Duration::from_millis(10)).await;
-        }
-    }
-    async fn connect(&mut self) -> bool {
-        let addr = SocketAddr::new(IpAddr::V4(net::Ipv4Addr::LOCALHOST), self.port);
-        match tokio::time::timeout(Duration::from_secs(3), tokio::net::TcpStream::connect(addr)).await {
-            Ok(Ok(s)) => {
-                self.stream = Some(s);
-                true
-            }
-            _ => false,
-        }
-    }
-    async fn stop(self) {
-        drop(self.stream);
-        self.shutdown.shutdown();
-        let _ = tokio::time::timeout(Duration::from_secs(2), self.shutdown.wait()).await;
-    }
-    /// `None` = harness trouble; `Some(None)` = the server closed the connection without an answer;
-    /// `Some(Some((status, content-decoded body)))`
-    async fn exchange(&mut self, method: &[u8], target: &[u8], kind: u128) -> Option<Option<(u16, Vec<u8>)>> {
+/// `None` = harness trouble; `Some(None)` = the server closed the connection / reset the stream without an answer;
+/// `Some(Some((status, content-decoded canonical body)))`
+type Exchange = Option<Option<(u16, Vec<u8>)>>;
+
+struct H1 {
+    stream: Option<tokio::net::TcpStream>,
+}
+impl H1 {
+    async fn exchange(&mut self, front: &Front, host_header: &[u8], method: &[u8], target: &[u8], kind: u128) -> Exchange {
         use tokio::io::{AsyncReadExt, AsyncWriteExt};
-        if self.stream.is_none() && !self.connect().await {
-            return None;
+        if self.stream.is_none() {
+            self.stream = Some(front.connect().await?);
         }
         let mut req = Vec::new();
         req.extend_from_slice(method);
         req.push(b' ');
         req.extend_from_slice(target);
-        req.extend_from_slice(b" HTTP/1.1\r\nhost: localhost\r\n");
-        for h in headers_of(kind) {
-            let h = h.as_l()?;
-            req.extend_from_slice(h[0].as_b()?);
+        req.extend_from_slice(b" HTTP/1.1\r\nhost: ");
+        req.extend_from_slice(host_header);
+        req.extend_from_slice(b"\r\n");
+        for (n, v) in headers_of(kind, SITE) {
+            req.extend_from_slice(n.as_bytes());
             req.extend_from_slice(b": ");
-            req.extend_from_slice(h[1].as_b()?);
+            req.extend_from_slice(v.as_bytes());
             req.extend_from_slice(b"\r\n");
         }
         req.extend_from_slice(b"\r\n");
-        let stream = self.stream.as_mut()?;
-        if stream.write_all(&req).await.is_err() {
+        if self.stream.as_mut()?.write_all(&req).await.is_err() {
             // the server had closed the idle connection: once more on a new one
-            self.stream = None;
-            if !self.connect().await {
-                return None;
-            }
+            self.stream = Some(front.connect().await?);
             if self.stream.as_mut()?.write_all(&req).await.is_err() {
                 return None;
             }
@@ -286,9 +285,15 @@ impl Wire {
                 Err(_) => return None,
             }
         };
-        let head = String::from_utf8_lossy(&buf[..head_end]).to_ascii_lowercase();
+        let head_raw = buf[..head_end].to_vec();
+        let head = String::from_utf8_lossy(&head_raw).to_ascii_lowercase();
         let status: u16 = head.split(' ').nth(1).and_then(|s| s.parse().ok())?;
         let header = |name: &str| head.lines().skip(1).find_map(|l| l.strip_prefix(name).map(|v| v.trim().to_string()));
+        // the `reason` header with its original case
+        let reason: Option<Vec<u8>> = String::from_utf8_lossy(&head_raw)
+            .lines()
+            .skip(1)
+            .find_map(|l| if l.len() >= 7 && l[..7].eq_ignore_ascii_case("reason:") { Some(l[7..].trim().as_bytes().to_vec()) } else { None });
         let len: usize = if method == b"HEAD" || status == 204 || status == 304 {
             0
         } else {
@@ -311,23 +316,688 @@ impl Wire {
         if !ok {
             return None;
         }
-        Some(Some((status, body)))
+        Some(Some((status, canon_body(status, reason.as_deref(), &body))))
     }
+}
+
+struct H2 {
+    send: Option<h2::client::SendRequest<Bytes>>,
+}
+impl H2 {
+    async fn open(front: &Front) -> Option<h2::client::SendRequest<Bytes>> {
+        let tcp = front.connect().await?;
+        let name = rustls::pki_types::ServerName::try_from("localhost").ok()?;
+        let s = tokio::time::timeout(IO_TIMEOUT, tokio_rustls::TlsConnector::from(tls().client_h2.clone()).connect(name, tcp))
+            .await
+            .ok()?
+            .ok()?;
+        if s.get_ref().1.alpn_protocol() != Some(b"h2") {
+            return None;
+        }
+        let (send, conn) = tokio::time::timeout(IO_TIMEOUT, h2::client::Builder::new().handshake::<_, Bytes>(s)).await.ok()?.ok()?;
+        tokio::spawn(async move {
+            let _ = conn.await;
+        });
+        Some(send)
+    }
+    async fn exchange(&mut self, front: &Front, method: &[u8], target: &[u8], kind: u128) -> Exchange {
+        let mut uri = format!("https://localhost:{H2_PORT}").into_bytes();
+        uri.extend_from_slice(target);
+        let (Ok(m), Ok(uri)) = (Method::from_bytes(method), Uri::try_from(&uri[..])) else { return Some(None) };
+        let mut b = Request::builder().method(m).uri(uri);
+        for (n, v) in headers_of(kind, SITE_H2) {
+            b = b.header(n, v);
+        }
+        let req = b.body(()).ok()?;
+        for attempt in 0..2 {
+            if self.send.is_none() {
+                self.send = Some(H2::open(front).await?);
+            }
+            let send = self.send.clone()?;
+            let mut send = match tokio::time::timeout(IO_TIMEOUT, send.ready()).await {
+                Ok(Ok(s)) => s,
+                Ok(Err(_)) if attempt == 0 => {
+                    // the connection is gone (GOAWAY after an earlier refusal): a new one
+                    self.send = None;
+                    continue;
+                }
+                _ => return None,
+            };
+            let (resp, _stream) = match send.send_request(req.clone(), true) {
+                Ok(x) => x,
+                Err(_) if attempt == 0 => {
+                    self.send = None;
+                    continue;
+                }
+                Err(_) => return None,
+            };
+            let resp = match tokio::time::timeout(IO_TIMEOUT, resp).await {
+                Err(_) => return None,
+                Ok(Err(e)) if e.is_reset() && e.is_remote() => return Some(None),
+                Ok(Err(e)) if e.is_go_away() && e.is_remote() => {
+                    self.send = None;
+                    return Some(None);
+                }
+                Ok(Err(_)) => return None,
+                Ok(Ok(r)) => r,
+            };
+            let (parts, mut body) = resp.into_parts();
+            let mut data = Vec::new();
+            loop {
+                match tokio::time::timeout(IO_TIMEOUT, body.data()).await {
+                    Err(_) => return None,
+                    Ok(None) => break,
+                    Ok(Some(Err(_))) => return None,
+                    Ok(Some(Ok(chunk))) => {
+                        let _ = body.flow_control().release_capacity(chunk.len());
+                        data.extend_from_slice(&chunk);
+                    }
+                }
+            }
+            let status = parts.status.as_u16();
+            let enc = parts.headers.get("content-encoding").map(|v| v.as_bytes().to_vec());
+            let (decoded, ok) = pipe::decode_body(enc.as_deref(), &data);
+            if !ok {
+                return None;
+            }
+            let reason = parts.headers.get("reason").map(|v| v.as_bytes().to_vec());
+            return Some(Some((status, canon_body(status, reason.as_deref(), &decoded))));
+        }
+        None
+    }
+}
+
+// -------------------------------------------------------------------------------------------
+// HTTP/2 with hand-written frames: any text can be put into `:path` (the h2 crate's client refuses, on the client
+// side, what http::uri::PathAndQuery refuses). One connection per request; HPACK: requests are written as literals
+// without Huffman coding; of the response only `:status` (always the first field) is decoded.
+// -------------------------------------------------------------------------------------------
+fn hp_int(out: &mut Vec<u8>, prefix_bits: u8, flags: u8, mut v: usize) {
+    let max = (1usize << prefix_bits) - 1;
+    if v < max {
+        out.push(flags | v as u8);
+    } else {
+        out.push(flags | max as u8);
+        v -= max;
+        while v >= 128 {
+            out.push((v % 128 + 128) as u8);
+            v /= 128;
+        }
+        out.push(v as u8);
+    }
+}
+fn hp_str(out: &mut Vec<u8>, s: &[u8]) {
+    hp_int(out, 7, 0, s.len());
+    out.extend_from_slice(s);
+}
+/// literal header field without indexing, name from the static table
+fn hp_lit_idx(out: &mut Vec<u8>, idx: usize, v: &[u8]) {
+    hp_int(out, 4, 0, idx);
+    hp_str(out, v);
+}
+fn hp_lit_new(out: &mut Vec<u8>, n: &[u8], v: &[u8]) {
+    out.push(0);
+    hp_str(out, n);
+    hp_str(out, v);
+}
+fn hp_read_int(b: &[u8], i: &mut usize, prefix_bits: u8) -> Option<usize> {
+    let max = (1usize << prefix_bits) - 1;
+    let mut v = (*b.get(*i)? as usize) & max;
+    *i += 1;
+    if v == max {
+        let mut shift = 0;
+        loop {
+            let c = *b.get(*i)? as usize;
+            *i += 1;
+            v += (c & 127) << shift;
+            shift += 7;
+            if c & 128 == 0 || shift > 28 {
+                break;
+            }
+        }
+    }
+    Some(v)
+}
+/// the Huffman codes of the digits (RFC 7541 appendix B): '0'..'2' = 00000..00010, '3'..'9' = 011001..011111
+fn hp_huffman_digits(data: &[u8]) -> Option<u16> {
+    let bit = |k: usize| data.get(k / 8).map(|b| (b >> (7 - k % 8)) & 1);
+    let mut k = 0;
+    let mut v: u16 = 0;
+    for _ in 0..3 {
+        let mut c = 0u8;
+        for _ in 0..5 {
+            c = c << 1 | bit(k)?;
+            k += 1;
+        }
+        let d = if c <= 2 {
+            c
+        } else {
+            c = c << 1 | bit(k)?;
+            k += 1;
+            if (0x19..=0x1f).contains(&c) {
+                3 + (c - 0x19)
+            } else {
+                return None;
+            }
+        };
+        v = v * 10 + d as u16;
+    }
+    Some(v)
+}
+fn hp_status(block: &[u8]) -> Option<u16> {
+    let mut i = 0;
+    // dynamic table size updates
+    while block.get(i)? & 0xe0 == 0x20 {
+        hp_read_int(block, &mut i, 5)?;
+    }
+    let b = *block.get(i)?;
+    const STATIC: [u16; 7] = [200, 204, 206, 304, 400, 404, 500];
+    if b & 0x80 != 0 {
+        let idx = hp_read_int(block, &mut i, 7)?;
+        return STATIC.get(idx.checked_sub(8)?).copied();
+    }
+    let idx = hp_read_int(block, &mut i, if b & 0xc0 == 0x40 { 6 } else { 4 })?;
+    if !(8..=14).contains(&idx) {
+        return None;
+    }
+    let huffman = block.get(i)? & 0x80 != 0;
+    let len = hp_read_int(block, &mut i, 7)?;
+    let data = block.get(i..i + len)?;
+    if huffman {
+        hp_huffman_digits(data)
+    } else {
+        std::str::from_utf8(data).ok()?.parse().ok()
+    }
+}
+fn h2_frame(out: &mut Vec<u8>, ty: u8, flags: u8, stream: u32, payload: &[u8]) {
+    out.extend_from_slice(&(payload.len() as u32).to_be_bytes()[1..]);
+    out.push(ty);
+    out.push(flags);
+    out.extend_from_slice(&stream.to_be_bytes());
+    out.extend_from_slice(payload);
+}
+/// the `reason` header of kvarn's answer to an unsafe path (the generated page contains it): taken from the real code, on a
+/// host without a file system
+fn unsafe_reason() -> Option<Vec<u8>> {
+    static R: OnceLock<Option<Vec<u8>>> = OnceLock::new();
+    R.get_or_init(|| {
+        let mut o = host::Options::new();
+        o.disable_fs();
+        let h = Host::unsecure("reference", "/nonexistent-kvarn-verif", Extensions::empty(), o);
+        let r = pipe::block_on(kvarn::error::sanitize_error_into_response(kvarn::prelude::utils::parse::SanitizeError::UnsafePath, &h));
+        r.into_parts().0.headers().get("reason").map(|v| v.as_bytes().to_vec())
+    })
+    .clone()
+}
+async fn h2raw_exchange(front: &Front, method: &[u8], path: &[u8], kind: u128, reason400: Option<&[u8]>) -> Exchange {
+    use tokio::io::{AsyncReadExt, AsyncWriteExt};
+    let tcp = front.connect().await?;
+    let name = rustls::pki_types::ServerName::try_from("localhost").ok()?;
+    let mut s = tokio::time::timeout(IO_TIMEOUT, tokio_rustls::TlsConnector::from(tls().client_h2.clone()).connect(name, tcp))
+        .await
+        .ok()?
+        .ok()?;
+    if s.get_ref().1.alpn_protocol() != Some(b"h2") {
+        return None;
+    }
+    let mut out = b"PRI * HTTP/2.0\r\n\r\nSM\r\n\r\n".to_vec();
+    // SETTINGS: HEADER_TABLE_SIZE = 0 (the server's encoder keeps no dynamic table), ENABLE_PUSH = 0
+    h2_frame(&mut out, 4, 0, 0, &[0, 1, 0, 0, 0, 0, 0, 2, 0, 0, 0, 0]);
+    let mut block = Vec::new();
+    match method {
+        b"GET" => block.push(0x82),
+        b"POST" => block.push(0x83),
+        m => hp_lit_idx(&mut block, 2, m),
+    }
+    block.push(0x87); // :scheme https
+    hp_lit_idx(&mut block, 1, format!("localhost:{H2_PORT}").as_bytes());
+    hp_lit_idx(&mut block, 4, path);
+    for (n, v) in headers_of(kind, SITE_H2) {
+        hp_lit_new(&mut block, n.as_bytes(), v.as_bytes());
+    }
+    h2_frame(&mut out, 1, 0x1 | 0x4, 1, &block); // HEADERS, END_STREAM | END_HEADERS
+    s.write_all(&out).await.ok()?;
+    s.flush().await.ok()?;
+    let mut buf: Vec<u8> = Vec::new();
+    let mut tmp = [0u8; 8192];
+    let mut status: Option<u16> = None;
+    let mut body = Vec::new();
+    loop {
+        while buf.len() < 9 || buf.len() < 9 + ((buf[0] as usize) << 16 | (buf[1] as usize) << 8 | buf[2] as usize) {
+            match tokio::time::timeout(IO_TIMEOUT, s.read(&mut tmp)).await {
+                Ok(Ok(0)) | Ok(Err(_)) => return Some(None), // closed without an answer
+                Ok(Ok(n)) => buf.extend_from_slice(&tmp[..n]),
+                Err(_) => return None,
+            }
+        }
+        let len = (buf[0] as usize) << 16 | (buf[1] as usize) << 8 | buf[2] as usize;
+        let (ty, flags) = (buf[3], buf[4]);
+        let stream = u32::from_be_bytes([buf[5] & 0x7f, buf[6], buf[7], buf[8]]);
+        let payload: Vec<u8> = buf[9..9 + len].to_vec();
+        buf.drain(..9 + len);
+        let unpad = |p: &[u8], skip_priority: bool| -> Option<Vec<u8>> {
+            let mut a = 0;
+            let mut e = p.len();
+            if flags & 0x8 != 0 {
+                e = e.checked_sub(*p.first()? as usize)?;
+                a = 1;
+            }
+            if skip_priority && flags & 0x20 != 0 {
+                a += 5;
+            }
+            Some(p.get(a..e)?.to_vec())
+        };
+        match ty {
+            4 if flags & 1 == 0 => {
+                let mut ack = Vec::new();
+                h2_frame(&mut ack, 4, 1, 0, &[]);
+                s.write_all(&ack).await.ok()?;
+                s.flush().await.ok()?;
+            }
+            3 if stream == 1 => return Some(None), // RST_STREAM
+            7 => return Some(None),                // GOAWAY
+            1 if stream == 1 => {
+                if status.is_none() {
+                    status = Some(hp_status(&unpad(&payload, true)?)?);
+                }
+                if flags & 1 != 0 {
+                    break;
+                }
+            }
+            0 if stream == 1 => {
+                body.extend_from_slice(&unpad(&payload, false)?);
+                if flags & 1 != 0 {
+                    break;
+                }
+            }
+            _ => {}
+        }
+    }
+    let status = status?;
+    Some(Some((status, canon_body(status, if status == 400 { reason400 } else { None }, &body))))
+}
+
+/// `None` = malformed input; `Some(None)` = the scenario could not be run (connection trouble, stall, inotify): retried by the caller
+fn run(x: &X, mode: Mode) -> Option<Option<X>> {
+    let l = x.as_l()?;
+    if l.len() != 2 {
+        return None;
+    }
+    let c = l[0].as_l()?;
+    if c.len() != 7 {
+        return None;
+    }
+    let (default_ext, cache, fcache) = (c[0].as_bool()?, c[1].as_bool()?, c[2].as_bool()?);
+    let public = c[3].as_b()?.to_vec();
+    let o = c[6].as_l()?;
+    if o.len() != 5 {
+        return None;
+    }
+    let (errors, ext, folder, nofs) = (o[0].as_b()?.to_vec(), o[1].as_b()?.to_vec(), o[2].as_b()?.to_vec(), o[3].as_bool()?);
+    // what the client writes into the Host header (HTTP/1.1 and in process; over HTTP/2 ':authority' is the site's)
+    let host_header = o[4].as_b()?.to_vec();
+    let mut handlers = Vec::new();
+    for h in c[5].as_l()? {
+        let h = h.as_l()?;
+        // (L path kind status body headers spref maxage cpref compress tuple)
+        handlers.push(X::L(vec![
+            X::b(h[0].as_b()?),
+            X::N(0),
+            X::N(200),
+            X::b(h[1].as_b()?),
+            X::L(vec![]),
+            X::N(h[2].as_n()?),
+            X::N(0),
+            X::N(0),
+            X::bool(false),
+            X::L(vec![]),
+        ]));
+    }
+    let cfg = vec![
+        kvp("default_ext", X::bool(default_ext)),
+        kvp("cache", X::bool(cache)),
+        kvp("fcache", X::bool(fcache)),
+        kvp("files", c[4].clone()),
+        kvp("handlers", X::L(handlers)),
+        // the default host: it is selected whatever the client writes into the Host header
+        kvp("default_host", X::bool(true)),
+    ];
+    let secure = mode == Mode::H2 || mode == Mode::H2Raw;
+    let customize = move |_kv: &[(String, X)], host: &mut Host, shared: &Arc<pipe::Shared>| {
+        // the fixture has files above the host directory as well
+        host.path = format!("{}/host", host.path).into();
+        // the options are set only when they differ from kvarn's defaults
+        if public != b"public" {
+            host.options.set_public_data_dir(pipe::leak(&public));
+        }
+        if errors != b"errors" {
+            host.options.set_errors_dir(pipe::leak(&errors));
+        }
+        if ext != b"html" {
+            host.options.extension_default = Some(pipe::leak(&ext).into());
+        }
+        if folder != b"index.html" {
+            host.options.folder_default = Some(pipe::leak(&folder).into());
+        }
+        if nofs {
+            host.options.disable_fs();
+        }
+        if secure {
+            *host.certificate.write().unwrap() = Some(tls().key.clone());
+        }
+        let sh = Arc::clone(shared);
+        host.extensions.add_prepare_fn(
+            Box::new(move |_req, _host| {
+                sh.log.lock().unwrap().push(b"pf".to_vec());
+                false
+            }),
+            prepare!(_req, _host, _path, _addr, {
+                FatResponse::no_cache(Response::new(Bytes::from_static(b"predicate-bound prepare ran")))
+            }),
+            extensions::Id::new(0, "C01 probe: logs that the predicate-bound Prepare extensions were consulted"),
+        );
+    };
+    // the options are text in kvarn: a non-UTF-8 value cannot be configured
+    for v in [c[3].as_b()?, o[0].as_b()?, o[1].as_b()?, o[2].as_b()?] {
+        std::str::from_utf8(v).ok()?;
+    }
+    let built = pipe::build_host(&X::L(cfg), Some(&customize))?;
+    enum Op {
+        Skip,
+        Req(Vec<u8>, Vec<u8>, u128),
+        Alias(Vec<u8>, Vec<u8>),
+    }
+    let mut ops = Vec::new();
+    for r in l[1].as_l()? {
+        let r = r.as_l()?;
+        if r.len() == 3 && r[0].as_n() == Some(1) {
+            ops.push(Op::Alias(r[1].as_b()?.to_vec(), r[2].as_b()?.to_vec()));
+            continue;
+        }
+        let (method, target, kind) = (r[0].as_b()?, r[1].as_b()?, r[2].as_n()?);
+        let sendable = match mode {
+            Mode::InProc => true,
+            Mode::H1 => wire_ok(target) && wire_ok(method),
+            // (a CONNECT request has no `:path` in HTTP/2)
+            Mode::H2 => wire_ok(target) && wire_ok(method) && target.starts_with(b"/") && method != b"CONNECT",
+            Mode::H2Raw => wire_ok(target) && wire_ok(method) && method != b"CONNECT",
+        };
+        if sendable {
+            ops.push(Op::Req(method.to_vec(), target.to_vec(), kind));
+        } else {
+            ops.push(Op::Skip);
+        }
+    }
+    let reason400 = if mode == Mode::H2Raw { unsafe_reason() } else { None };
+    let res = std::panic::catch_unwind(std::panic::AssertUnwindSafe(|| {
+        pipe::block_on(async {
+            let mut out = Vec::new();
+            let host = built.hosts.get_host(&built.host_name)?;
+            let mut watcher = Watcher::new(built.dir.as_ref()?)?;
+            let front = if mode == Mode::InProc { None } else { Some(Front::new(&built, secure).await?) };
+            let mut h1 = H1 { stream: None };
+            let mut h2 = H2 { send: None };
+            if mode == Mode::H2 {
+                // the handshake comes first, so that it is not part of what the first request opens
+                h2.send = Some(H2::open(front.as_ref()?).await?);
+            }
+            watcher.drain()?;
+            let markers = std::env::var_os(MARKERS_ENV).is_some();
+            let mut nreq = 0usize;
+            for op in &ops {
+                match op {
+                    Op::Skip => out.push(X::L(vec![X::N(96)])),
+                    Op::Req(method, target, kind) => {
+                        if markers {
+                            // under a system-call trace (`pathsanpipe.sys`): delimits what this request makes the process do
+                            let _ = std::fs::metadata(format!("{MARKER}{nreq}"));
+                            nreq += 1;
+                        }
+                        built.shared.log.lock().unwrap().clear();
+                        let answer: Option<(u16, Vec<u8>)> = match mode {
+                            Mode::InProc => {
+                                let mut hdrs: Vec<X> = headers_of(*kind, SITE).into_iter().map(|(n, v)| X::L(vec![X::b(n), X::b(v)])).collect();
+                                // (c00pipe::make_request builds the URI "http://" + this header + target, as kvarn's readers do)
+                                hdrs.push(X::L(vec![X::b("host"), X::b(&host_header)]));
+                                match pipe::make_request(&built.host_name, method, target, &hdrs, b"") {
+                                    None => None,
+                                    Some(mut req) => {
+                                        let reply = kvarn::handle_cache(&mut req, pipe::sockaddr(1), host).await;
+                                        let status = reply.response.status().as_u16();
+                                        let enc = reply.response.headers().get("content-encoding").map(|v| v.as_bytes().to_vec());
+                                        let (decoded, ok) = pipe::decode_body(enc.as_deref(), reply.response.body());
+                                        if !ok {
+                                            out.push(X::L(vec![X::N(95)]));
+                                            watcher.drain()?;
+                                            continue;
+                                        }
+                                        let reason = reply.response.headers().get("reason").map(|v| v.as_bytes().to_vec());
+                                        Some((status, canon_body(status, reason.as_deref(), &decoded)))
+                                    }
+                                }
+                            }
+                            Mode::H1 => h1.exchange(front.as_ref()?, &host_header, method, target, *kind).await?,
+                            Mode::H2 => h2.exchange(front.as_ref()?, method, target, *kind).await?,
+                            Mode::H2Raw => h2raw_exchange(front.as_ref()?, method, target, *kind, reason400.as_deref()).await?,
+                        };
+                        let opened = watcher.drain()?;
+                        out.push(match answer {
+                            None => X::L(vec![X::N(96)]),
+                            Some((status, body)) => {
+                                let log: Vec<X> = built.shared.log.lock().unwrap().iter().map(X::b).collect();
+                                X::L(vec![X::n(status), X::b(body), X::L(log), X::L(opened)])
+                            }
+                        });
+                    }
+                    Op::Alias(from, to) => {
+                        // "any cache content": the entry stored under the path `from` (if any) is also put under the key `to`,
+                        // with the public `MokaCache::cache` field
+                        let found = match &host.response_cache {
+                            Some(cache) => {
+                                let k = |b: &[u8]| comprash::UriKey::Path(String::from_utf8_lossy(b).as_ref().into());
+                                match cache.cache.get(&k(from)) {
+                                    Some(v) => {
+                                        cache.cache.insert(k(to), v);
+                                        true
+                                    }
+                                    None => false,
+                                }
+                            }
+                            None => false,
+                        };
+                        out.push(X::L(vec![X::bool(found)]));
+                    }
+                }
+            }
+            if markers {
+                let _ = std::fs::metadata(format!("{MARKER}{nreq}"));
+            }
+            drop(h1);
+            drop(h2);
+            Some(out)
+        })
+    }));
+    if let Some(d) = &built.dir {
+        let _ = std::fs::remove_dir_all(d);
+    }
+    Some(match res {
+        Ok(Some(out)) => Some(X::L(out)),
+        Ok(None) => None,
+        Err(_) => Some(X::panic()),
+    })
+}
+
+// -------------------------------------------------------------------------------------------
+// `pathsanpipe.sys`: the in-process history once more in a child process under `strace -f -e trace=%file`:
+// per request the status and the distinct path strings below the run directory that were handed to ANY
+// file-related system call (open, stat, access, ... — successful or not), in order of first occurrence.
+// output per request (L (N status) (L (B path relative to the run directory) ...)) | (L (N 96)) | (L (N found))
+// -------------------------------------------------------------------------------------------
+const MARKERS_ENV: &str = "KVH_SYS_MARKERS";
+const MARKER: &str = "/kvh-marker/";
+
+/// the quoted strings of one line of `strace -xx` output (every byte is written as \xHH)
+fn quoted_strings(line: &[u8]) -> Vec<Vec<u8>> {
+    let mut out = Vec::new();
+    let mut i = 0;
+    while i < line.len() {
+        if line[i] == b'"' {
+            let mut j = i + 1;
+            let mut cur = Vec::new();
+            while j < line.len() && line[j] != b'"' {
+                if line[j] == b'\\' && j + 3 < line.len() && line[j + 1] == b'x' {
+                    let h = (line[j + 2] as char).to_digit(16);
+                    let l = (line[j + 3] as char).to_digit(16);
+                    if let (Some(h), Some(l)) = (h, l) {
+                        cur.push((h * 16 + l) as u8);
+                        j += 4;
+                        continue;
+                    }
+                }
+                cur.push(line[j]);
+                j += 1;
+            }
+            out.push(cur);
+            i = j + 1;
+        } else {
+            i += 1;
+        }
+    }
+    out
+}
+
+fn sys(x: &X) -> Option<Option<X>> {
+    use std::io::{Read, Write};
+    use std::sync::atomic::{AtomicUsize, Ordering};
+    static N: AtomicUsize = AtomicUsize::new(0);
+    // well-formed? (the child would answer "bad input" as well)
+    x.as_l().filter(|l| l.len() == 2)?;
+    let exe = std::env::current_exe().ok()?;
+    let log = std::env::temp_dir().join(format!("kvh-c01-strace-{}-{}.log", std::process::id(), N.fetch_add(1, Ordering::SeqCst)));
+    let child = std::process::Command::new("strace")
+        .args(["-f", "-qq", "-xx", "-s", "20000", "-e", "trace=%file", "-o"])
+        .arg(&log)
+        .arg(&exe)
+        .env(MARKERS_ENV, "1")
+        .stdin(std::process::Stdio::piped())
+        .stdout(std::process::Stdio::piped())
+        .stderr(std::process::Stdio::null())
+        .spawn();
+    let Ok(mut child) = child else { return Some(None) };
+    // a traced child that does not finish (it never should take more than seconds) is killed: harness trouble
+    let done = Arc::new(std::sync::atomic::AtomicBool::new(false));
+    {
+        let done = Arc::clone(&done);
+        let pid = child.id() as i32;
+        std::thread::spawn(move || {
+            for _ in 0..1800 {
+                std::thread::sleep(Duration::from_millis(100));
+                if done.load(Ordering::SeqCst) {
+                    return;
+                }
+            }
+            unsafe { libc::kill(pid, libc::SIGKILL) };
+        });
+    }
+    let mut line = String::from("s pathsanpipe.run ");
+    x.write(&mut line);
+    line.push('\n');
+    let mut stdin = child.stdin.take()?;
+    let writer = std::thread::spawn(move || {
+        let _ = stdin.write_all(line.as_bytes());
+    });
+    let mut outp = String::new();
+    let _ = child.stdout.take()?.read_to_string(&mut outp);
+    let _ = writer.join();
+    let ok = child.wait().map_or(false, |s| s.success());
+    done.store(true, Ordering::SeqCst);
+    let trace = std::fs::read(&log).unwrap_or_default();
+    let _ = std::fs::remove_file(&log);
+    if !ok {
+        return Some(None);
+    }
+    let res = outp.lines().find_map(|l| l.strip_prefix("s "))?;
+    let mut pos = 0;
+    let res = crate::xval::parse(res.as_bytes(), &mut pos)?;
+    let rows = match res.as_l() {
+        Some(r) if r.len() == x.as_l()?[1].as_l()?.len() => r,
+        // (L (N 96) (N 1)), a panic, bad input: as the child says
+        _ => return Some(if res == X::L(vec![X::N(96), X::N(1)]) { None } else { Some(res) }),
+    };
+    // windows of the trace between the markers
+    let mut windows: Vec<Vec<Vec<u8>>> = Vec::new();
+    let mut current: Option<Vec<Vec<u8>>> = None;
+    for l in trace.split(|c| *c == b'\n') {
+        for q in quoted_strings(l) {
+            if q.starts_with(MARKER.as_bytes()) {
+                if let Some(w) = current.take() {
+                    windows.push(w);
+                }
+                current = Some(Vec::new());
+            } else if let Some(w) = current.as_mut() {
+                // below the run directory `<verif>/.run/<pid>-<n>/`
+                if let Some(p) = q.windows(6).position(|w| w == b"/.run/") {
+                    if let Some(e) = q[p + 6..].iter().position(|c| *c == b'/') {
+                        let rel = q[p + 6 + e + 1..].to_vec();
+                        if !w.contains(&rel) {
+                            w.push(rel);
+                        }
+                    }
+                }
+            }
+        }
+    }
+    let mut out = Vec::new();
+    let mut k = 0;
+    for (r, op) in rows.iter().zip(x.as_l()?[1].as_l()?) {
+        let is_req = op.as_l().map_or(false, |o| o.len() == 3 && o[0].as_b().is_some());
+        match r.as_l() {
+            Some([status, _, _, _]) => {
+                let w = windows.get(k)?;
+                out.push(X::L(vec![status.clone(), X::L(w.iter().map(X::b).collect())]));
+            }
+            _ => out.push(r.clone()),
+        }
+        // a marker is written for every request that could be sent (in process: every request)
+        if is_req {
+            k += 1;
+        }
+    }
+    if k != windows.len() {
+        return Some(None);
+    }
+    Some(Some(X::L(out)))
+}
+
+fn persistent_sys(x: &X) -> X {
+    for _attempt in 0..3 {
+        match sys(x) {
+            None => return X::bad(),
+            Some(Some(r)) => return r,
+            Some(None) => {}
+        }
+    }
+    X::L(vec![X::N(96), X::N(1)])
+}
+
+fn persistent(x: &X, mode: Mode) -> X {
+    for _attempt in 0..3 {
+        match run(x, mode) {
+            None => return X::bad(),
+            Some(Some(r)) => return r,
+            Some(None) => {}
+        }
+    }
+    X::L(vec![X::N(96), X::N(1)])
 }
 
 pub fn dispatch(comp: &str, x: &X) -> Option<X> {
     Some(match comp {
-        "pathsanpipe.run" => crate::guarded(|| run(x, false).flatten().unwrap_or_else(X::bad)),
-        "pathsanpipe.wire" => crate::guarded(|| {
-            for _attempt in 0..3 {
-                match run(x, true) {
-                    None => return X::bad(),
-                    Some(Some(r)) => return r,
-                    Some(None) => {}
-                }
-            }
-            X::L(vec![X::N(96), X::N(1)])
-        }),
+        "pathsanpipe.run" => crate::guarded(|| persistent(x, Mode::InProc)),
+        "pathsanpipe.wire" => crate::guarded(|| persistent(x, Mode::H1)),
+        "pathsanpipe.h2" => crate::guarded(|| persistent(x, Mode::H2)),
+        "pathsanpipe.h2raw" => crate::guarded(|| persistent(x, Mode::H2Raw)),
+        "pathsanpipe.sys" => crate::guarded(|| persistent_sys(x)),
         _ => return None,
     })
 }
